@@ -20,7 +20,7 @@
 (* TLC's counterexample for the code as found (F15).                       *)
 (***************************************************************************)
 EXTENDS Raster, Json
-CONSTANTS MaxN, BoxStride, CatStride, PairStride, ShapeFrom
+CONSTANTS MaxN, BoxStride, CatStride, PairStride, SameStride, ShapeFrom
 VARIABLES c, pc, k, rast, res
 vars == <<c, pc, k, rast, res>>
 
@@ -28,8 +28,11 @@ Cat == Catalogue(FMAXT)
 Spacings == <<[t0 |-> 2, ts |-> 2, f0 |-> 0, fs |-> 2],
               [t0 |-> 0, ts |-> 3, f0 |-> 2, fs |-> 2],
               [t0 |-> 1, ts |-> 2, f0 |-> 3, fs |-> 3]>>
+\* fu = Hz per frequency tick.  250: a frequency value never equals a time value (except 0).  1 (descriptor su = 1): one
+\* time tick is 1 s and one frequency tick 1 Hz, so EQUAL TICK NUMBERS ARE EQUAL NUMBERS on the two axes although they lie
+\* in different bins (every spacing has different origins/steps on the two axes) -- a lookup must depend on the axis.
 Tpl(d) == [T |-> d.T, F |-> d.F, order |-> d.order, t0 |-> Spacings[d.sp].t0, ts |-> Spacings[d.sp].ts,
-           f0 |-> Spacings[d.sp].f0, fs |-> Spacings[d.sp].fs]
+           f0 |-> Spacings[d.sp].f0, fs |-> Spacings[d.sp].fs, fu |-> IF d.su = 1 THEN 1 ELSE 250]
 Lo(ax) == Max(0, ax.a - 1)                       \* one tick below the first coordinate (coordinates are >= 0)
 Hi(ax) == ax.a + ax.n * ax.s + 1                 \* one tick beyond the end of the last bin
 Ticks(ax) == Lo(ax)..Hi(ax)
@@ -40,9 +43,9 @@ Pick(ax, n) == LET w == Hi(ax) - Lo(ax) + 1
                IN  <<s, s + ((n \div w) % (Hi(ax) - s + 1))>>
 
 (* ---- descriptors (integers and strings only, so that they form one set) ---- *)
-TplD == [T : 1..MaxN, F : 1..MaxN, order : {"ft", "tf"}, sp : 1..3]
+TplD == [T : 1..MaxN, F : 1..MaxN, order : {"ft", "tf"}, sp : 1..3, su : {0}]
 D(td, gk, a, b, d, e, g2, mm) ==
-    [T |-> td.T, F |-> td.F, order |-> td.order, sp |-> td.sp, gk |-> gk, a |-> a, b |-> b, d |-> d, e |-> e, g2 |-> g2, mm |-> mm]
+    [T |-> td.T, F |-> td.F, order |-> td.order, sp |-> td.sp, su |-> 0, gk |-> gk, a |-> a, b |-> b, d |-> d, e |-> e, g2 |-> g2, mm |-> mm]
 Hash(x) == x.a * 31 + x.d * 17 + x.b * 7 + x.e * 3 + x.T + 2 * x.F + x.sp + (IF x.order = "ft" THEN 0 ELSE 5)
 \* boxes: every time pair with a varying frequency pair, and every frequency pair with a varying time pair
 BoxD(td) == LET ta == TAxis(Tpl(td))  fa == FAxis(Tpl(td)) IN
@@ -51,6 +54,9 @@ BoxD(td) == LET ta == TAxis(Tpl(td))  fa == FAxis(Tpl(td)) IN
 IvD(td)  == {D(td, "iv", p[1], 0, p[2], 0, 0, 0) : p \in Pairs(TAxis(Tpl(td)))}
 TsD(td)  == {D(td, "ts", s, 0, 0, 0, 0, 0) : s \in Ticks(TAxis(Tpl(td)))}
 CatD(td) == {D(td, "cat", i, m, 0, 0, 0, 0) : i \in 1..Len(Cat), m \in 1..2}
+\* a time coordinate of the box equals one of its frequency coordinates as a number and falls into a different bin there
+Coincide(y) == LET tp == Tpl([y EXCEPT !.su = 1]) IN
+    \E v \in {y.a, y.d} \cap {y.b, y.e} : BinClamp(TAxis(tp), v) # BinClamp(FAxis(tp), v)
 Descriptors ==
     UNION {LET bx == BoxD(td)  ct == CatD(td) IN
                {x \in bx : Hash(x) % BoxStride = 0}
@@ -61,6 +67,12 @@ Descriptors ==
          \cup  {[x EXCEPT !.g2 = j] : x \in {y \in ct : Hash(y) % (2 * CatStride) = 1}, j \in 1..2}
          \cup  {[x EXCEPT !.g2 = j, !.mm = m] : x \in {y \in bx : y.a < y.d /\ y.b < y.e /\ Hash(y) % (4 * PairStride) = 2},
                                                 j \in 0..1, m \in 1..2}
+         \* same numbers on both axes (su = 1): boxes one of whose time coordinates EQUALS one of its frequency coordinates
+         \* but lies in another bin; lists whose second box has the FIRST box's frequency coordinates as its time coordinates
+         \* (j = 3) or the usual second shapes; catalogue shapes (their vertices repeat the same few numbers on both axes)
+         \cup  {[x EXCEPT !.su = 1] : x \in {y \in bx : Coincide(y) /\ Hash(y) % SameStride = 0}}
+         \cup  {[x EXCEPT !.su = 1, !.g2 = j] : x \in {y \in bx : Hash(y) % (2 * SameStride) = 1}, j \in {1, 3}}
+         \cup  {[x EXCEPT !.su = 1] : x \in {y \in ct : Hash(y) % (2 * CatStride) = 0}}
          : td \in TplD}
 
 (* ---- the call as the binder sees it ---- *)
@@ -82,14 +94,16 @@ First(x) ==
       [] x.gk = "cat" -> ScaleG(Cat[x.a], x.b)
 \* second geometry of a list: a box over the middle of the template, or a right triangle whose hypotenuse runs
 \* through cell centres when the template is square
-Second(tp, j) ==
-    IF j = 1 THEN G("BoundingBox", <<tp.t0 + tp.ts - 1, tp.f0, tp.t0 + 2 * tp.ts, tp.f0 + tp.fs + 1>>)
+\* j = 3: a box whose TIME coordinates are the first box's FREQUENCY coordinates (same numbers when su = 1)
+Second(x, tp, j) ==
+    IF j = 3 THEN G("BoundingBox", <<x.b, tp.f0 + 1, x.e, tp.f0 + tp.fs + 1>>)
+    ELSE IF j = 1 THEN G("BoundingBox", <<tp.t0 + tp.ts - 1, tp.f0, tp.t0 + 2 * tp.ts, tp.f0 + tp.fs + 1>>)
     ELSE G("Polygon", <<<<<<tp.t0, tp.f0>>, <<tp.t0 + tp.T * tp.ts, tp.f0>>, <<tp.t0, tp.f0 + tp.F * tp.fs>>, <<tp.t0, tp.f0>>>>>>)
 Fills == <<0, -1, 7>>
 Concrete(x) ==
     LET tp == Tpl(x)
         n  == Hash(x)
-        gs == IF x.g2 = 0 THEN <<First(x)>> ELSE <<First(x), Second(tp, x.g2)>>
+        gs == IF x.g2 = 0 THEN <<First(x)>> ELSE <<First(x), Second(x, tp, x.g2)>>
         fl == Fills[(n % 3) + 1]
         dt == IF fl < 0 THEN <<"float32", "int16">>[(n % 2) + 1] ELSE <<"float32", "uint8", "int32", "float64">>[((n \div 3) % 4) + 1]
         sc == x.mm = 0 /\ (n \div 2) % 3 = 0
@@ -165,6 +179,7 @@ LawBin == LawAt => \A ax \in AxesOf(Case.tpl) : \A v \in Ticks(ax) :
     /\ BinExtent(ax, v) <= BinClamp(ax, v)
     /\ (BinExtent(ax, v) # BinClamp(ax, v)) <=> Ambiguous(ax, v)
     /\ v >= Coord(ax, ax.n) + ax.s => \A r \in Readings : Bin(r, ax, v) = ax.n            \* beyond the last bin: all of it is covered
+    /\ Coord(ax, ax.n) + ax.s < FMAXT                                                     \* FMAXT stands for any frequency beyond the template
 \* for a box the centre rule on the mapped shape IS "from the bin of the start (incl.) to the bin of the end (excl.)",
 \* and the closed cells the mapped rectangle touches are BoxTouches
 LawBoxIsCentreRule == LawAt => LET cs == Case IN \A j \in 1..NG(cs) : BoxLike(cs.geoms[j]) =>
